@@ -1,12 +1,288 @@
 package main
 
 import (
+	"fmt"
 	"go/ast"
+	"go/token"
+	"go/types"
+	"strconv"
+	"strings"
 
+	"golang.org/x/tools/go/ast/astutil"
 	"golang.org/x/tools/go/packages"
 )
 
+// Access instrumentation (C18): a scheduling point is inserted before every statement that reads
+// or writes (a) a package-level variable or (b) a field of a codec / compressor struct declared in
+// the instrumented packages — the only places where state shared between goroutines can live in
+// the stateless encode/decode packages. A statement that both reads and writes such state
+// (x.f = g(x.f), n++) gets a second point between the evaluation of its right-hand side and the
+// store, so that lost updates are explorable. Imports of sync are swapped for the deterministic
+// shim (its Pool hands back the most recently returned object, which is what makes a
+// use-after-Put observable).
+
+var accessSites int
+
+func sharedStructName(n string) bool {
+	l := strings.ToLower(n)
+	return strings.Contains(l, "codec") || strings.Contains(l, "compressor")
+}
+
+// touchesShared reports whether expression/statement n (without descending into nested blocks
+// or function literals) mentions shared state; writes reports whether it stores to it.
+func touchesShared(info *types.Info, n ast.Node) (reads bool) {
+	ast.Inspect(n, func(x ast.Node) bool {
+		switch e := x.(type) {
+		case *ast.BlockStmt, *ast.FuncLit:
+			if x != n {
+				return false
+			}
+		case *ast.Ident:
+			if v, ok := info.Uses[e].(*types.Var); ok && !v.IsField() && v.Parent() != nil && v.Pkg() != nil && v.Parent() == v.Pkg().Scope() {
+				if strings.Contains(v.Pkg().Path(), module) {
+					reads = true
+				}
+			}
+		case *ast.SelectorExpr:
+			if sel, ok := info.Selections[e]; ok && sel.Kind() == types.FieldVal {
+				t := sel.Recv()
+				if p, ok := t.(*types.Pointer); ok {
+					t = p.Elem()
+				}
+				if nt, ok := t.(*types.Named); ok && nt.Obj().Pkg() != nil && strings.Contains(nt.Obj().Pkg().Path(), module) && sharedStructName(nt.Obj().Name()) {
+					reads = true
+				}
+			}
+		}
+		return true
+	})
+	return
+}
+
+func point(kind string) ast.Stmt {
+	accessSites++
+	stats["access_sites"]++
+	return &ast.ExprStmt{X: call("sched", "Point", &ast.BasicLit{Kind: token.STRING, Value: strconv.Quote(kind)}, &ast.BasicLit{Kind: token.INT, Value: strconv.Itoa(accessSites)})}
+}
+
 func instrumentAccesses(p *packages.Package, f *ast.File) []byte {
-	die("access instrumentation not built yet")
-	return nil
+	fset := p.Fset
+	info := p.TypesInfo
+	swapped := false
+	for _, imp := range f.Imports {
+		path, _ := strconv.Unquote(imp.Path.Value)
+		if path == "sync" {
+			imp.Name = ast.NewIdent("sync")
+			imp.Path.Value = strconv.Quote(rtBase + "vsync")
+			swapped = true
+		}
+	}
+	used := false
+	tmp := 0
+	// calls whose receiver or arguments mention shared state: a point is passed right after the
+	// call returns (before its result is consumed by the enclosing expression), which exposes
+	// the window between "shared object mutated by the call" and "result/used by the caller".
+	wrapped := map[*ast.CallExpr]bool{}
+	astutil.Apply(f, nil, func(c *astutil.Cursor) bool {
+		call, ok := c.Node().(*ast.CallExpr)
+		if !ok || wrapped[call] {
+			return true
+		}
+		if _, isStmt := c.Parent().(*ast.ExprStmt); isStmt {
+			return true
+		}
+		if _, isGo := c.Parent().(*ast.GoStmt); isGo {
+			return true
+		}
+		if _, isDefer := c.Parent().(*ast.DeferStmt); isDefer {
+			return true
+		}
+		tv, ok := info.Types[call]
+		if !ok || tv.IsType() || tv.Type == nil {
+			return true
+		}
+		if _, isTuple := tv.Type.(*types.Tuple); isTuple {
+			return true
+		}
+		if tv.IsVoid() {
+			return true
+		}
+		// conversions and builtins are not calls
+		if ftv, ok := info.Types[call.Fun]; ok && (ftv.IsType() || ftv.IsBuiltin()) {
+			return true
+		}
+		mentions := false
+		if se, ok := call.Fun.(*ast.SelectorExpr); ok && touchesShared(info, se.X) {
+			mentions = true
+		}
+		for _, a := range call.Args {
+			if touchesShared(info, a) {
+				mentions = true
+			}
+		}
+		if !mentions {
+			return true
+		}
+		if b, ok := tv.Type.Underlying().(*types.Basic); ok && b.Info()&types.IsUntyped != 0 {
+			return true
+		}
+		wrapped[call] = true
+		accessSites++
+		stats["after_call_sites"]++
+		used = true
+		w := &ast.CallExpr{Fun: sel("sched", "After"), Args: []ast.Expr{&ast.BasicLit{Kind: token.INT, Value: strconv.Itoa(accessSites)}, call}}
+		wrapped[w] = true
+		c.Replace(w)
+		return true
+	})
+	rewriteList := func(list []ast.Stmt) []ast.Stmt {
+		var out []ast.Stmt
+		for _, st := range list {
+			// only the statement's own expressions; nested blocks are visited separately
+			own := ownParts(st)
+			shared := false
+			for _, o := range own {
+				if o != nil && touchesShared(info, o) {
+					shared = true
+				}
+			}
+			if !shared {
+				out = append(out, st)
+				continue
+			}
+			used = true
+			switch s := st.(type) {
+			case *ast.AssignStmt:
+				// shared location on the left and shared state read on the right: split load and store
+				if len(s.Lhs) == 1 && len(s.Rhs) == 1 && (s.Tok == token.ASSIGN) && touchesShared(info, s.Lhs[0]) && touchesShared(info, s.Rhs[0]) {
+					if t := info.TypeOf(s.Rhs[0]); t != nil {
+						if _, isTuple := t.(*types.Tuple); !isTuple {
+							tmp++
+							id := ast.NewIdent(fmt.Sprintf("_vacc%d", tmp))
+							out = append(out, point("load"), &ast.AssignStmt{Lhs: []ast.Expr{id}, Tok: token.DEFINE, Rhs: []ast.Expr{s.Rhs[0]}}, point("store"), &ast.AssignStmt{Lhs: s.Lhs, Tok: token.ASSIGN, Rhs: []ast.Expr{id}})
+							continue
+						}
+					}
+				}
+				if len(s.Lhs) == 1 && len(s.Rhs) == 1 && s.Tok != token.ASSIGN && s.Tok != token.DEFINE && touchesShared(info, s.Lhs[0]) {
+					// x op= y  ->  tmp := x op y; point; x = tmp
+					var op token.Token
+					switch s.Tok {
+					case token.ADD_ASSIGN:
+						op = token.ADD
+					case token.SUB_ASSIGN:
+						op = token.SUB
+					case token.OR_ASSIGN:
+						op = token.OR
+					case token.AND_ASSIGN:
+						op = token.AND
+					case token.XOR_ASSIGN:
+						op = token.XOR
+					}
+					if op != 0 {
+						tmp++
+						id := ast.NewIdent(fmt.Sprintf("_vacc%d", tmp))
+						out = append(out, point("load"), &ast.AssignStmt{Lhs: []ast.Expr{id}, Tok: token.DEFINE, Rhs: []ast.Expr{&ast.BinaryExpr{X: s.Lhs[0], Op: op, Y: s.Rhs[0]}}}, point("store"), &ast.AssignStmt{Lhs: s.Lhs, Tok: token.ASSIGN, Rhs: []ast.Expr{id}})
+						continue
+					}
+				}
+			case *ast.IncDecStmt:
+				if touchesShared(info, s.X) {
+					op := token.ADD
+					if s.Tok == token.DEC {
+						op = token.SUB
+					}
+					tmp++
+					id := ast.NewIdent(fmt.Sprintf("_vacc%d", tmp))
+					out = append(out, point("load"), &ast.AssignStmt{Lhs: []ast.Expr{id}, Tok: token.DEFINE, Rhs: []ast.Expr{&ast.BinaryExpr{X: s.X, Op: op, Y: &ast.BasicLit{Kind: token.INT, Value: "1"}}}}, point("store"), &ast.AssignStmt{Lhs: []ast.Expr{s.X}, Tok: token.ASSIGN, Rhs: []ast.Expr{id}})
+					continue
+				}
+			case *ast.DeferStmt:
+				// the deferred call runs at function exit: wrap it so that the point is passed there
+				if call, ok := interface{}(s.Call).(*ast.CallExpr); ok {
+					if _, isLit := call.Fun.(*ast.FuncLit); !isLit {
+						pt := point("defer")
+						fl := &ast.FuncLit{Type: &ast.FuncType{Params: &ast.FieldList{}}, Body: &ast.BlockStmt{List: []ast.Stmt{pt, &ast.ExprStmt{X: call}}}}
+						// arguments of a deferred call are evaluated at the defer statement; keep that for idents only
+						out = append(out, point("access"), &ast.DeferStmt{Call: &ast.CallExpr{Fun: fl}})
+						_ = fl
+						continue
+					}
+				}
+			}
+			out = append(out, point("access"), st)
+			switch st.(type) {
+			case *ast.ExprStmt, *ast.AssignStmt:
+				out = append(out, point("after"))
+			}
+		}
+		return out
+	}
+	astutil.Apply(f, nil, func(c *astutil.Cursor) bool {
+		switch b := c.Node().(type) {
+		case *ast.BlockStmt:
+			switch c.Parent().(type) {
+			case *ast.SwitchStmt, *ast.TypeSwitchStmt, *ast.SelectStmt:
+				// the list holds case clauses, which are rewritten on their own
+			default:
+				b.List = rewriteList(b.List)
+			}
+		case *ast.CaseClause:
+			b.Body = rewriteList(b.Body)
+		case *ast.CommClause:
+			b.Body = rewriteList(b.Body)
+		}
+		return true
+	})
+	if !used && !swapped {
+		return nil // untouched file: keep the original (it may carry its own build constraints)
+	}
+	tail := ""
+	if used {
+		astutil.AddImport(fset, f, rtBase+"sched")
+		tail = "\nvar _ = sched.Point\n"
+	}
+	return render(fset, f, tail)
+}
+
+// ownParts returns the expressions evaluated by a statement itself, excluding the bodies of
+// nested blocks.
+func ownParts(st ast.Stmt) []ast.Node {
+	switch s := st.(type) {
+	case *ast.IfStmt:
+		var out []ast.Node
+		if s.Init != nil {
+			out = append(out, s.Init)
+		}
+		return append(out, s.Cond)
+	case *ast.ForStmt:
+		var out []ast.Node
+		if s.Init != nil {
+			out = append(out, s.Init)
+		}
+		if s.Cond != nil {
+			out = append(out, s.Cond)
+		}
+		return out
+	case *ast.RangeStmt:
+		return []ast.Node{s.X}
+	case *ast.SwitchStmt:
+		var out []ast.Node
+		if s.Init != nil {
+			out = append(out, s.Init)
+		}
+		if s.Tag != nil {
+			out = append(out, s.Tag)
+		}
+		return out
+	case *ast.TypeSwitchStmt:
+		var out []ast.Node
+		if s.Init != nil {
+			out = append(out, s.Init)
+		}
+		return append(out, s.Assign)
+	case *ast.BlockStmt, *ast.LabeledStmt, *ast.SelectStmt:
+		return nil
+	}
+	return []ast.Node{st}
 }
